@@ -355,6 +355,139 @@ M('C08', 'notation-skip-name-len', SS, "        nlen = self.bytes_to_int(packet[
 M('C08', 'subpacket-update-hlen-off', ST, "        self.header.length = (len(self.__bytearray__()) - len(self.header)) + 1", "        self.header.length = (len(self.__bytearray__()) - len(self.header))", 'C08.h')
 T('C08', 'twin-read-local', PK, "        self.mtime = packet[:4]\n        del packet[:4]", "        raw_time = packet[:4]\n        del packet[:4]\n        self.mtime = raw_time")
 T('C08', 'twin-pend-inline', PK, "        pend = self.header.length - 6\n        self.keymaterial.parse(packet[:pend])\n        del packet[:pend]", "        self.keymaterial.parse(packet[:self.header.length - 6])\n        del packet[:self.header.length - 6]")
+# --- C08 hardening (semantic rules): new mutants per rewritten rule, twin families that must stay silent
+M('C08', 'literal-remainder-misses-format-octet', PK, '        self._contents = packet[:self.header.length - (6 + fnl)]\n        del packet[:self.header.length - (6 + fnl)]',
+  '        consumed = 1 + fnl + 4\n        self._contents = packet[:self.header.length - consumed]\n        del packet[:self.header.length - consumed]', 'C08.d')
+M('C08', 'onepass-offset-reads-swapped', PK, '        self.sigtype = packet[0]\n        del packet[0]\n\n        self.halg = packet[0]\n        del packet[0]\n\n        self.pubalg = packet[0]\n        del packet[0]\n\n        self.signer = packet[:8]\n        del packet[:8]\n\n        self.nested = (packet[0] == 1)\n        del packet[0]',
+  '        self.sigtype = packet[0]\n        self.pubalg = packet[1]\n        self.halg = packet[2]\n        del packet[:3]\n\n        self.signer = packet[:8]\n        del packet[:8]\n\n        self.nested = (packet[0] == 1)\n        del packet[0]', 'C08.c')
+M('C08', 'onepass-offset-read-gap', PK, '        self.sigtype = packet[0]\n        del packet[0]\n\n        self.halg = packet[0]\n        del packet[0]\n\n        self.pubalg = packet[0]\n        del packet[0]\n\n        self.signer = packet[:8]\n        del packet[:8]\n\n        self.nested = (packet[0] == 1)\n        del packet[0]',
+  '        self.sigtype = packet[0]\n        self.halg = packet[1]\n        self.pubalg = packet[2]\n        del packet[:3]\n\n        self.signer = packet[1:9]\n        del packet[:8]\n\n        self.nested = (packet[0] == 1)\n        del packet[0]', 'C08.a')
+M('C08', 'onepass-merged-del-short', PK, '        self.sigtype = packet[0]\n        del packet[0]\n\n        self.halg = packet[0]\n        del packet[0]\n\n        self.pubalg = packet[0]\n        del packet[0]\n\n        self.signer = packet[:8]\n        del packet[:8]\n\n        self.nested = (packet[0] == 1)\n        del packet[0]',
+  '        self.sigtype = packet[0]\n        self.halg = packet[1]\n        self.pubalg = packet[2]\n        del packet[:2]\n\n        self.signer = packet[:8]\n        del packet[:8]\n\n        self.nested = (packet[0] == 1)\n        del packet[0]', 'C08.a')
+M('C08', 'rsa-parse-locals-swapped', FL, '    def parse(self, packet):\n        self.n = MPI(packet)\n        self.e = MPI(packet)\n\n\nclass DSAPub',
+  '    def parse(self, packet):\n        e = MPI(packet)\n        n = MPI(packet)\n        self.n, self.e = n, e\n\n\nclass DSAPub', 'C08.c')
+M('C08', 'hashed-area-peek-short', FL, '        hashed_raw = packet[:2 + hl]\n',
+  '        hashed_raw = packet[:1 + hl]\n', 'C08.a')
+M('C08', 'uid-writer-codec-swapped', PK, "textenc = 'utf-8' if not self._encoding_fallback else 'charmap'",
+  "textenc = 'utf-8' if self._encoding_fallback else 'charmap'", 'C08.f')
+M('C08', 'uid-writer-ignores-fallback', PK, "textenc = 'utf-8' if not self._encoding_fallback else 'charmap'",
+  "textenc = 'utf-8'", 'C08.f')
+M('C08', 'uid-reader-forgets-fallback', PK, "            self.uid = uid_bytes.decode('charmap')\n            self._encoding_fallback = True",
+  "            self.uid = uid_bytes.decode('charmap')", 'C08.f')
+M('C08', 'uid-fallback-other-codec', PK, "            self.uid = uid_bytes.decode('charmap')\n",
+  "            self.uid = uid_bytes.decode('cp437')\n", 'C08.f')
+M('C08', 'uid-flag-set-on-primary-path', PK, "            self.uid = uid_bytes.decode('utf-8')\n",
+  "            self.uid = uid_bytes.decode('utf-8')\n            self._encoding_fallback = True\n", 'C08.f')
+M('C08', 'filename-latin1-writer', PK, "filename = self.filename.encode('utf-8')",
+  "filename = self.filename.encode('latin-1')", 'C08.f')
+M('C08', 'filename-latin1-reader', PK, 'self.filename = packet[:fnl].decode()',
+  "self.filename = packet[:fnl].decode('latin-1')", 'C08.f')
+M('C08', 'literal-format-utf8-writer', PK, "_bytes += self.format.encode('latin-1')",
+  "_bytes += self.format.encode('utf-8')", 'C08.f')
+M('C08', 'issuer-hex-utf16', SS, '_bytes += binascii.unhexlify(self._issuer.encode())',
+  "_bytes += binascii.unhexlify(self._issuer.encode('utf-16'))", 'C08.f')
+M('C08', 'dispatch-fallback-key-0', TY, '                ncls = MetaDispatchable._registry[(rcls, None)]',
+  '                ncls = MetaDispatchable._registry[(rcls, 0)]', 'C08.g')
+M('C08', 'dispatch-unknown-version-keeps-placeholder', TY, '                    else:  # pragma: no cover\n                        ncls = None\n',
+  '                    else:  # pragma: no cover\n                        pass\n', 'C08.g')
+M('C08', 'dispatch-body-parse-unwrapped', TY, '            try:\n                obj.parse(packet)\n\n            except Exception as ex:\n                raise PGPError(str(ex)) from ex\n',
+  '            obj.parse(packet)\n', 'C08.g')
+M('C08', 'dispatch-body-parse-valueerror', TY, '            try:\n                obj.parse(packet)\n\n            except Exception as ex:\n                raise PGPError(str(ex)) from ex\n',
+  '            try:\n                obj.parse(packet)\n\n            except Exception as ex:\n                raise ValueError(str(ex)) from ex\n', 'C08.g')
+M('C08', 'dispatch-body-parse-swallowed', TY, '            try:\n                obj.parse(packet)\n\n            except Exception as ex:\n                raise PGPError(str(ex)) from ex\n',
+  '            try:\n                obj.parse(packet)\n\n            except Exception as ex:\n                pass\n', 'C08.g')
+M('C08', 'dispatch-version-key-constant', TY, '                        ncls = MetaDispatchable._registry[(rcls, header.typeid, header.version)]',
+  '                        ncls = MetaDispatchable._registry[(rcls, header.typeid, 4)]', 'C08.g')
+M('C08', 'opaque-ignores-version-octet', PT, "        if hasattr(self.header, 'version'):\n            pend -= 1\n\n        self.payload",
+  '        self.payload', 'C08.g')
+M('C08', 'opaque-version-adjust-2', PT, '            pend -= 1\n\n        self.payload',
+  '            pend -= 2\n\n        self.payload', 'C08.g')
+M('C08', 'opaque-payload-transformed', PT, '        self.payload = packet[:pend]\n        del packet[:pend]',
+  '        self.payload = packet[:pend].upper()\n        del packet[:pend]', 'C08.g')
+M('C08', 'trust-typeid-wrong', PK, '    __typeid__ = 0x0C\n',
+  '    __typeid__ = 0x1C\n', 'C08.g')
+M('C08', 'pubsubkeyv4-ver-0', PK, 'class PubSubKeyV4(PubSubKey, PubKeyV4):\n    __ver__ = 4',
+  'class PubSubKeyV4(PubSubKey, PubKeyV4):\n    __ver__ = 0', 'C08.g')
+M('C08', 'onepass-update-before-signer', PGP, '        onepass.signer = self.signer\n        onepass.update_hlen()',
+  '        onepass.update_hlen()\n        onepass.signer = self.signer', 'C08.h')
+M('C08', 'mdc-update-on-wrong-object', PK, '        mdc.update_hlen()\n\n        data += mdc.__bytes__()',
+  '        self.update_hlen()\n\n        data += mdc.__bytes__()', 'C08.h')
+M('C08', 'pubkey-update-only-for-ecdh', PK, '            pk.keymaterial.kdf = copy.copy(self.keymaterial.kdf)\n\n        pk.update_hlen()',
+  '            pk.keymaterial.kdf = copy.copy(self.keymaterial.kdf)\n            pk.update_hlen()', 'C08.h')
+M('C08', 'pubkey-update-before-curve', PK, '        if self.pkalg in {PubKeyAlgorithm.ECDSA, PubKeyAlgorithm.EdDSA}:\n            pk.keymaterial.oid = self.keymaterial.oid\n\n        if self.pkalg == PubKeyAlgorithm.ECDH:\n            pk.keymaterial.oid = self.keymaterial.oid\n            pk.keymaterial.kdf = copy.copy(self.keymaterial.kdf)\n\n        pk.update_hlen()\n        return pk',
+  '        pk.update_hlen()\n        if self.pkalg in {PubKeyAlgorithm.ECDSA, PubKeyAlgorithm.EdDSA}:\n            pk.keymaterial.oid = self.keymaterial.oid\n\n        if self.pkalg == PubKeyAlgorithm.ECDH:\n            pk.keymaterial.oid = self.keymaterial.oid\n            pk.keymaterial.kdf = copy.copy(self.keymaterial.kdf)\n\n        return pk', 'C08.h')
+M('C08', 'sign-update-before-from-signer', PGP, '        sig._signature.signature.from_signer(_sig)\n        sig._signature.update_hlen()',
+  '        sig._signature.update_hlen()\n        sig._signature.signature.from_signer(_sig)', 'C08.h')
+M('C08', 'addnew-update-before-setattr', FL, '        nsp = getattr(self._spmodule, spname)()\n        for p, v in kwargs.items():\n            if hasattr(nsp, p):\n                setattr(nsp, p, v)\n        nsp.update_hlen()',
+  '        nsp = getattr(self._spmodule, spname)()\n        nsp.update_hlen()\n        for p, v in kwargs.items():\n            if hasattr(nsp, p):\n                setattr(nsp, p, v)', 'C08.h')
+M('C08', 'literal-update-before-format', PGP, "            lit.format = format\n\n            # if cls.is_ascii(message):\n            #     lit.format = 't'\n\n            lit.update_hlen()",
+  '            lit.update_hlen()\n            lit.format = format', 'C08.h')
+M('C08', 'protect-no-update', PK, '        self.keymaterial.encrypt_keyblob(passphrase, enc_alg, hash_alg)\n        del passphrase\n        self.update_hlen()',
+  '        self.keymaterial.encrypt_keyblob(passphrase, enc_alg, hash_alg)\n        del passphrase', 'C08.h')
+M('C08', 'compressed-no-update', PGP, '            comp.packets = [pkt for pkt in self]\n            comp.update_hlen()',
+  '            comp.packets = [pkt for pkt in self]', 'C08.h')
+M('C08', 'sigv4-own-length-first', PK, '        self.subpackets.update_hlen()\n        super(SignatureV4, self).update_hlen()',
+  '        super(SignatureV4, self).update_hlen()\n        self.subpackets.update_hlen()', 'C08.h')
+M('C08', 'userattribute-no-inner-update', PK, '        self.subpackets.update_hlen()\n        super(UserAttribute, self).update_hlen()',
+  '        super(UserAttribute, self).update_hlen()', 'C08.h')
+M('C08', 'packet-hlen-includes-header', PT, '        self.header.length = len(self.__bytearray__()) - len(self.header)',
+  '        self.header.length = len(self.__bytearray__())', 'C08.h')
+T('C08', 'twin-uid-codec-if-else', PK, "        textenc = 'utf-8' if not self._encoding_fallback else 'charmap'\n        _bytes += self.uid.encode(textenc)",
+  "        if self._encoding_fallback:\n            _bytes += self.uid.encode('charmap')\n        else:\n            _bytes += self.uid.encode(encoding='utf-8')")
+T('C08', 'twin-uid-flag-is-true', PK, "textenc = 'utf-8' if not self._encoding_fallback else 'charmap'",
+  "textenc = 'charmap' if self._encoding_fallback is True else 'utf-8'")
+T('C08', 'twin-filename-raw-local', PK, '        self.filename = packet[:fnl].decode()\n',
+  "        raw_name = bytes(packet[:fnl])\n        self.filename = raw_name.decode('UTF8')\n")
+T('C08', 'twin-decode-text-inlined', SS, '    def uri_bytearray(self, val):\n        self.uri = self._decode_text(val)',
+  "    def uri_bytearray(self, val):\n        try:\n            text = val.decode('utf-8')\n        except UnicodeDecodeError:\n            text = val.decode('latin-1')\n        self.uri = text")
+T('C08', 'twin-signer-default-codec', PK, 'self.signer.encode("latin-1")',
+  'self.signer.encode()')
+T('C08', 'twin-onepass-renamed-reordered', PGP, '        onepass = OnePassSignatureV3()\n        onepass.sigtype = self.type\n        onepass.halg = self.hash_algorithm\n        onepass.pubalg = self.key_algorithm\n        onepass.signer = self.signer\n        onepass.update_hlen()\n        return onepass',
+  '        ops = OnePassSignatureV3()\n        ops.signer = self.signer\n        ops.pubalg = self.key_algorithm\n        ops.halg = self.hash_algorithm\n        ops.sigtype = self.type\n        pkt = ops\n        pkt.update_hlen()\n        return pkt')
+T('C08', 'twin-uid-new-built-in-local', PGP, "            uid._uid = UserID()\n            uidstr = pn\n            if comment:\n                uidstr += ' (' + comment + ')'\n            if email:\n                uidstr += ' <' + email + '>'\n            uid._uid.uid = uidstr\n            uid._uid.update_hlen()",
+  "            uidstr = pn\n            if comment:\n                uidstr += ' (' + comment + ')'\n            if email:\n                uidstr += ' <' + email + '>'\n            pkt = UserID()\n            pkt.uid = uidstr\n            pkt.update_hlen()\n            uid._uid = pkt")
+T('C08', 'twin-sigv4-explicit-base-call', PK, '        self.subpackets.update_hlen()\n        super(SignatureV4, self).update_hlen()',
+  '        sp = self.subpackets\n        sp.update_hlen()\n        VersionedPacket.update_hlen(self)')
+T('C08', 'twin-hlen-temporaries', PT, '        self.header.length = len(self.__bytearray__()) - len(self.header)',
+  '        body = self.__bytearray__()\n        hdr = len(self.header)\n        self.header.length = -hdr + len(body)')
+T('C08', 'twin-mdc-renamed', PK, "        mdc = MDC()\n        mdc.mdc = binascii.hexlify(hashlib.new('SHA1', data + b'\\xd3\\x14').digest())\n        mdc.update_hlen()\n\n        data += mdc.__bytes__()",
+  "        digest = binascii.hexlify(hashlib.new('SHA1', data + b'\\xd3\\x14').digest())\n        trailer = MDC()\n        trailer.mdc = digest\n        trailer.update_hlen()\n\n        data += trailer.__bytes__()")
+T('C08', 'twin-protect-km-local', PK, '        self.keymaterial.encrypt_keyblob(passphrase, enc_alg, hash_alg)\n        del passphrase\n        self.update_hlen()',
+  '        km = self.keymaterial\n        km.encrypt_keyblob(passphrase, enc_alg, hash_alg)\n        del passphrase\n        self.update_hlen()')
+T('C08', 'twin-opaque-skip-expression', PT, "        pend = self.header.length\n        if hasattr(self.header, 'version'):\n            pend -= 1\n\n        self.payload = packet[:pend]\n        del packet[:pend]",
+  "        skip = 1 if hasattr(self.header, 'version') else 0\n        body_len = self.header.length - skip\n        body = packet[:body_len]\n        del packet[:body_len]\n        self.payload = body")
+T('C08', 'twin-dispatch-registry-local', TY, '            ncls = None\n            if (rcls, header.typeid) in MetaDispatchable._registry:\n                ncls = MetaDispatchable._registry[(rcls, header.typeid)]\n',
+  '            reg = MetaDispatchable._registry\n            ncls = None\n            if (rcls, header.typeid) in reg:\n                ncls = reg[rcls, header.typeid]\n')
+T('C08', 'twin-dispatch-raise-local', TY, '            try:\n                obj.parse(packet)\n\n            except Exception as ex:\n                raise PGPError(str(ex)) from ex\n',
+  '            try:\n                obj.parse(packet)\n\n            except Exception as exc:\n                err = PGPError(str(exc))\n                raise err from exc\n')
+T('C08', 'twin-typeid-folded', PK, '    __typeid__ = 0x0C\n',
+  '    __typeid__ = 8 + 4\n')
+T('C08', 'twin-onepass-merged-del', PK, '        self.sigtype = packet[0]\n        del packet[0]\n\n        self.halg = packet[0]\n        del packet[0]\n\n        self.pubalg = packet[0]\n        del packet[0]\n\n        self.signer = packet[:8]\n        del packet[:8]\n\n        self.nested = (packet[0] == 1)\n        del packet[0]',
+  '        self.sigtype = packet[0]\n        self.halg = packet[1]\n        self.pubalg = packet[2]\n        del packet[:3]\n\n        self.signer = packet[:8]\n        del packet[:8]\n\n        self.nested = (packet[0] == 1)\n        del packet[0]')
+T('C08', 'twin-onepass-all-offsets', PK, '        self.sigtype = packet[0]\n        del packet[0]\n\n        self.halg = packet[0]\n        del packet[0]\n\n        self.pubalg = packet[0]\n        del packet[0]\n\n        self.signer = packet[:8]\n        del packet[:8]\n\n        self.nested = (packet[0] == 1)\n        del packet[0]',
+  '        self.sigtype = packet[0]\n        self.halg = packet[1]\n        self.pubalg = packet[2]\n        self.signer = packet[3:11]\n        self.nested = (packet[11] == 1)\n        del packet[:12]')
+T('C08', 'twin-onepass-temporaries', PK, '        self.sigtype = packet[0]\n        del packet[0]\n\n        self.halg = packet[0]\n        del packet[0]\n\n        self.pubalg = packet[0]\n        del packet[0]\n\n        self.signer = packet[:8]\n        del packet[:8]\n\n        self.nested = (packet[0] == 1)\n        del packet[0]',
+  '        sigtype = packet[0]\n        del packet[0]\n        halg = packet[0]\n        del packet[0]\n        pubalg = packet[0]\n        del packet[0]\n        keyid = packet[:8]\n        del packet[:8]\n        nested_flag = packet[0]\n        del packet[0]\n\n        self.sigtype = sigtype\n        self.halg = halg\n        self.pubalg = pubalg\n        self.signer = keyid\n        self.nested = (nested_flag == 1)')
+T('C08', 'twin-onepass-writer-merged', PK, '        _bytes += bytearray([self.sigtype])\n        _bytes += bytearray([self.halg])\n        _bytes += bytearray([self.pubalg])\n        _bytes += binascii.unhexlify(self.signer.encode("latin-1"))\n        _bytes += bytearray([int(self.nested)])\n        return _bytes',
+  '        _bytes += bytearray([self.sigtype, self.halg, self.pubalg])\n        keyid = binascii.unhexlify(self.signer.encode("latin-1"))\n        _bytes.extend(keyid)\n        _bytes.append(int(self.nested))\n        return _bytes')
+T('C08', 'twin-literal-rest-local', PK, '        self._contents = packet[:self.header.length - (6 + fnl)]\n        del packet[:self.header.length - (6 + fnl)]',
+  '        rest = self.header.length - fnl - 6\n        self._contents = packet[:rest]\n        del packet[:rest]')
+T('C08', 'twin-literal-consumed-sum', PK, '        self._contents = packet[:self.header.length - (6 + fnl)]\n        del packet[:self.header.length - (6 + fnl)]',
+  '        consumed = 1 + 1 + fnl + 4\n        self._contents = packet[:self.header.length - consumed]\n        del packet[:self.header.length - consumed]')
+T('C08', 'twin-literal-name-len-local', PK, "        filename = self.filename.encode('utf-8')\n        _bytes += bytearray([len(filename)])\n        _bytes += filename",
+  "        name_octets = self.filename.encode('utf-8')\n        name_len = len(name_octets)\n        _bytes += self.int_to_bytes(name_len, 1) + name_octets")
+T('C08', 'twin-rsa-parse-locals', FL, '    def parse(self, packet):\n        self.n = MPI(packet)\n        self.e = MPI(packet)\n\n\nclass DSAPub',
+  '    def parse(self, packet):\n        n = MPI(packet)\n        e = MPI(packet)\n        self.n, self.e = n, e\n\n\nclass DSAPub')
+T('C08', 'twin-pubkey-restructured', PK, '        pk = PubKeyV4() if not isinstance(self, PrivSubKeyV4) else PubSubKeyV4()\n        pk.created = self.created\n        pk.pkalg = self.pkalg\n\n        # copy over MPIs\n        for pm in self.keymaterial.__pubfields__:\n            setattr(pk.keymaterial, pm, copy.copy(getattr(self.keymaterial, pm)))\n\n        if self.pkalg in {PubKeyAlgorithm.ECDSA, PubKeyAlgorithm.EdDSA}:\n            pk.keymaterial.oid = self.keymaterial.oid\n\n        if self.pkalg == PubKeyAlgorithm.ECDH:\n            pk.keymaterial.oid = self.keymaterial.oid\n            pk.keymaterial.kdf = copy.copy(self.keymaterial.kdf)\n\n        pk.update_hlen()\n        return pk',
+  '        if isinstance(self, PrivSubKeyV4):\n            pub = PubSubKeyV4()\n        else:\n            pub = PubKeyV4()\n        pub.created = self.created\n        pub.pkalg = self.pkalg\n\n        secret_km = self.keymaterial\n        public_km = pub.keymaterial\n\n        for field in secret_km.__pubfields__:\n            setattr(public_km, field, copy.copy(getattr(secret_km, field)))\n\n        if self.pkalg in {PubKeyAlgorithm.ECDSA, PubKeyAlgorithm.EdDSA, PubKeyAlgorithm.ECDH}:\n            public_km.oid = secret_km.oid\n\n        if self.pkalg == PubKeyAlgorithm.ECDH:\n            public_km.kdf = copy.copy(secret_km.kdf)\n\n        pub.update_hlen()\n        return pub')
+T('C08', 'twin-dispatch-get-and-helper', TY, '            ncls = None\n            if (rcls, header.typeid) in MetaDispatchable._registry:\n                ncls = MetaDispatchable._registry[(rcls, header.typeid)]\n\n                if ncls.__ver__ == 0:\n                    if header.__class__ != ncls.__headercls__:\n                        nh = ncls.__headercls__()\n                        nh.__dict__.update(header.__dict__)\n                        try:\n                            nh.parse(packet)\n\n                        except Exception as ex:\n                            raise PGPError(str(ex)) from ex\n\n                        header = nh\n\n                    if (rcls, header.typeid, header.version) in MetaDispatchable._registry:\n                        ncls = MetaDispatchable._registry[(rcls, header.typeid, header.version)]\n\n                    else:  # pragma: no cover\n                        ncls = None\n\n            if ncls is None:\n                ncls = MetaDispatchable._registry[(rcls, None)]\n',
+  '            registry = MetaDispatchable._registry\n\n            ncls = registry.get((rcls, header.typeid))\n            if ncls is not None and ncls.__ver__ == 0:\n                header = MetaDispatchable._versioned_header(header, ncls, packet)\n                ncls = registry.get((rcls, header.typeid, header.version))\n\n            if ncls is None:\n                ncls = registry[(rcls, None)]\n', more=[(TY, '    def __call__(cls, packet=None):  # NOQA\n', '    @staticmethod\n    def _versioned_header(header, ncls, packet):\n        if header.__class__ != ncls.__headercls__:\n            nh = ncls.__headercls__()\n            nh.__dict__.update(header.__dict__)\n            try:\n                nh.parse(packet)\n\n            except Exception as ex:\n                raise PGPError(str(ex)) from ex\n\n            return nh\n\n        return header\n\n    def __call__(cls, packet=None):  # NOQA\n')])
+T('C08', 'twin-header-first-octet-once', PT, '        self._lenfmt = ((packet[0] & 0x40) >> 6)\n        self.tag = packet[0]\n        if self._lenfmt == 0:\n            self.llen = (packet[0] & 0x03)\n        del packet[0]\n\n        if (self._lenfmt == 0 and self.llen > 0) or self._lenfmt == 1:\n            self.length = packet\n\n        else:\n            # indeterminate packet length\n            self.length = len(packet)\n',
+  '        first_octet = packet[0]\n        self._lenfmt = ((first_octet & 0x40) >> 6)\n        self.tag = first_octet\n        if self._lenfmt == 0:\n            self.llen = (first_octet & 0x03)\n        del packet[0]\n\n        has_length_field = self._lenfmt == 1 or (self._lenfmt == 0 and self.llen > 0)\n        if not has_length_field:\n            # indeterminate packet length\n            self.length = len(packet)\n\n        else:\n            self.length = packet\n')
+T('C08', 'twin-pkesk-pkalg-get', PK, '        ct = _c.get(self._pkalg, None)\n        self.ct = ct() if ct is not None else ct\n',
+  '        ctcls = _c.get(self._pkalg)\n        if ctcls is None:\n            self.ct = None\n\n        else:\n            self.ct = ctcls()\n', more=[(PK, "        _bytes += self.ct.__bytearray__() if self.ct is not None else b'\\x00' * (self.header.length - 10)\n", "        if self.ct is not None:\n            _bytes += self.ct.__bytearray__()\n\n        else:\n            _bytes += b'\\x00' * (self.header.length - 10)\n")])
+T('C08', 'twin-hashed-area-peek-spelling', FL, '        hl = self.bytes_to_int(packet[:2])\n        hashed_raw = packet[:2 + hl]\n        del packet[:2]\n',
+  '        count_octets = packet[:2]\n        hl = self.bytes_to_int(count_octets)\n        area_end = hl + 2\n        hashed_raw = packet[:area_end]\n        del packet[:2]\n')
 M('C09', 'old-tag-shift', PT, "        tag |= (self.tag) if self._lenfmt else ((self.tag << 2) | {1: 0, 2: 1, 4: 2, 0: 3}[self.llen])", "        tag |= (self.tag) if self._lenfmt else ((self.tag << 1) | {1: 0, 2: 1, 4: 2, 0: 3}[self.llen])", 'C09.8')
 M('C09', 'tag-mask-1f', PT, "        _tag = (val & 0x3F) if self._lenfmt else ((val & 0x3C) >> 2)", "        _tag = (val & 0x1F) if self._lenfmt else ((val & 0x3C) >> 2)", 'C09.8')
 M('C09', 'partial-del-one', TY, "                    del b[total:total + size]", "                    del b[total:total + 1]", 'C09.8')
